@@ -230,6 +230,22 @@ def check_siblings(rep, ops):
     rep.floor('ordering overloads per operator', len(base), 7)
 
 
+def _constant_result(fi):
+    """The constant a parameterless-in-effect overload returns (its body
+    uses no argument): literal, or a look-up in module-level constant
+    tables, decided by abstract evaluation with opaque arguments."""
+    from sa import absint
+    it = absint.Interp(fi.module.repo, fi.module)
+    args = {p: absint.Sym(p) for p in fi.params()}
+    try:
+        out = it.run(fi.node, args)
+    except (absint.Unsupported, absint._Raise):
+        return 'undecided'
+    if out[0] != 'return':
+        return 'raises'
+    return out[1]
+
+
 def check_null_table(rep, ops, ad):
     n = 0
     for name in ORDERING:
@@ -247,8 +263,8 @@ def check_null_table(rep, ops, ad):
                     if isinstance(r, ast.Return)]
             key = (only_null[0], only_null[1])
             want = NULL_TABLE[key][sym]
-            ok = len(rets) == 1 and isinstance(
-                rets[0].value, ast.Constant) and rets[0].value.value is want
+            got = _constant_result(o.func)
+            ok = got is want and isinstance(got, bool)
             rep.ob('R15c', '%s[%s]' % (o.func.key, name), ok,
                    '%s with %s must be %s (null orders below every value '
                    'and equals itself); the overload returns %s' % (
